@@ -30,6 +30,7 @@ func checkC20(c *Ctx) {
 	c.Rule("C20/R6", "protocol tables: the form fields the client writes for files and commit are accepted by the server; the field it writes for abort is rejected")
 	c.Rule("C20/R7", "every in-repo fs.Writer.CloseWithError discards: it never publishes the file and, where the file already exists on disk, removes it")
 
+	c.Rule("C20/R8", "an upload ID is never handed out twice: the statement that creates the Uploads row is a plain INSERT (no REPLACE, no OR REPLACE/IGNORE, no ON CONFLICT/ON DUPLICATE KEY), so an ID that already exists is refused by the primary key instead of silently replacing the committed upload (and, through ON DELETE CASCADE, its records)")
 	pats := []string{"./storage", "./storage/app", "./storage/db", "./storage/fs", "./storage/fs/local", "./storage/benchfmt"}
 	p := mustLoad(c, loadOpts{}, pats...)
 	c20(c, p)
@@ -62,6 +63,7 @@ func c20(c *Ctx, p *Prog) {
 	c20NewUpload(c, p)
 	c20Protocol(c, p)
 	c20CloseWithError(c, p, []string{"storage/fs", "storage/fs/local"})
+	c20InsertOnly(c, p)
 }
 
 func isErrorType(t types.Type) bool {
@@ -1129,3 +1131,40 @@ func typeStructString(t types.Type) string {
 }
 
 var _ = constant.MakeBool
+
+func c20InsertOnly(c *Ctx, p *Prog) {
+	const R = "C20/R8"
+	n := 0
+	for _, fn := range p.Funcs("storage/db") {
+		eachInstr(fn, func(_ *ssa.BasicBlock, in ssa.Instruction) {
+			call, ok := in.(*ssa.Call)
+			if !ok {
+				return
+			}
+			co := calleeObj(&call.Call)
+			if co == nil || co.Pkg() == nil || co.Pkg().Path() != "database/sql" || !(co.Name() == "Prepare" || co.Name() == "Exec" || co.Name() == "Query") {
+				return
+			}
+			args := callArgs(&call.Call)
+			if len(args) < 2 {
+				return
+			}
+			for _, s := range stringPieces(args[1]) {
+				up := strings.ToUpper(strings.Join(strings.Fields(s), " "))
+				if !strings.Contains(up, "INTO UPLOADS") {
+					continue
+				}
+				n++
+				bad := ""
+				for _, w := range []string{"REPLACE", "OR IGNORE", "ON CONFLICT", "ON DUPLICATE", "INSERT IGNORE"} {
+					if strings.Contains(up, w) {
+						bad = w
+					}
+				}
+				c.Check(bad == "" && strings.HasPrefix(up, "INSERT INTO UPLOADS"), R, fmt.Sprintf("%s:uploads-insert#%d", fnName(fn), n), p.pos(call.Pos()), "the Uploads row is created with a plain INSERT",
+					fmt.Sprintf("the statement that creates the Uploads row is %q: with %s an ID that already exists (a later-dated upload already stored, or the clock stepping back over midnight) is handed out again and the earlier committed upload's row is replaced, which deletes its records through ON DELETE CASCADE", s, bad))
+			}
+		})
+	}
+	c.Floor(R, "statements inserting into Uploads", n, 1)
+}
